@@ -2,6 +2,7 @@ package main
 
 import (
 	"fmt"
+	"io"
 	"sync"
 	"time"
 	"unicode/utf8"
@@ -205,21 +206,45 @@ func c06Scope(c *mon.Ctx, r *mon.Rand) {
 		prec = mon.NewPlainRec(true)
 		opts.Reporter = prec
 	}
-	desc := map[string]interface{}{"root": rc, "program": prog, "cardinality_tags": cardTags, "reporter": kind}
+	reacquire := r.Bool()
+	desc := map[string]interface{}{"root": rc, "program": prog, "cardinality_tags": cardTags, "reporter": kind, "close_and_derive_again": reacquire}
 	var root tally.Scope
 	if c.Guard("panic-scope/"+kind, func() interface{} { return desc }, func() {
 		root, _ = vNewRoot(opts, 0, uint(r.Range(0, 4)))
-		scopes := prog.clone().apply(root)
-		for i, s := range scopes {
-			if i != 0 && i != len(scopes)-1 && r.Bool() {
-				continue
+		recordOn := func(scopes []tally.Scope) {
+			for i, s := range scopes {
+				if i != 0 && i != len(scopes)-1 && r.Bool() {
+					continue
+				}
+				m := pool.names[r.Intn(len(pool.names))]
+				s.Counter(m).Inc(1)
+				s.Gauge(m).Update(2)
+				s.Timer(m).Record(time.Millisecond)
+				s.Histogram(m, nil).RecordDuration(time.Millisecond)
+				s.Histogram(m+"v", tally.ValueBuckets{1}).RecordValue(1)
 			}
-			m := pool.names[r.Intn(len(pool.names))]
-			s.Counter(m).Inc(1)
-			s.Gauge(m).Update(2)
-			s.Timer(m).Record(time.Millisecond)
-			s.Histogram(m, nil).RecordDuration(time.Millisecond)
-			s.Histogram(m+"v", tally.ValueBuckets{1}).RecordValue(1)
+		}
+		scopes := prog.clone().apply(root)
+		recordOn(scopes)
+		// half of the runs: close the derived scopes and derive them again with
+		// the same raw strings, before and/or after a report pass (the re-acquire
+		// paths of the registry), and record again
+		if reacquire {
+			for round := 0; round < 2; round++ {
+				if r.Bool() {
+					tally.VerifReportPass(root)
+				}
+				for i := len(scopes) - 1; i >= 1; i-- {
+					if cl, ok := scopes[i].(io.Closer); ok && scopes[i] != root && r.Chance(2, 3) {
+						cl.Close()
+					}
+				}
+				if r.Bool() {
+					tally.VerifReportPass(root)
+				}
+				scopes = prog.clone().apply(root)
+				recordOn(scopes)
+			}
 		}
 		tally.VerifReportPass(root)
 	}) {
